@@ -115,7 +115,7 @@ static void run_case(CaseCtx& c)
         const Vector<double>& u = g->solution();
         n = u.size();
         for (int k = 0; k < n; k++)
-            finite_solution = finite_solution && std::isfinite(u[k]);
+            finite_solution = finite_solution && std::isfinite(u[k]) && std::fabs(u[k]) < 1e50; // 1e50: norms square it
         if (cfg.with_exact) {
             auto a = g->exactErrorWeightedEuclidean();
             auto b = g->exactErrorInfinity();
@@ -142,15 +142,23 @@ static void run_case(CaseCtx& c)
     bool must_reject = ext.find("take-without-caches") != std::string::npos || ext.find("invalid-") != std::string::npos || ext.find("non-coarsenable-grid") != std::string::npos ||
                        ext.find("maxLevels-0") != std::string::npos || ext.find("maxLevels-1") != std::string::npos;
     // (an invalid FMG cycle is only consulted when FMG start-up cycles actually run; an invalid enum that is never read may run)
-    if (ext.find("take-without-caches") != std::string::npos || ext.find("non-coarsenable-grid") != std::string::npos)
-        c.obs.require("documented_rejection_is_rejected", !ran, ext);
+    // judged from the FINAL option values (a later mutation may have overridden an earlier one):
+    //  - take strategy without both caches (only if the strategy integer that reaches setup() is the take value);
+    //  - a uniform grid with nr_exp <= 2 (nr <= 5) or ntheta_exp in 0..2 (ntheta <= 4) cannot give two levels.
+    const bool final_take_without_caches = raw_strategy == -100 && cfg.strategy == 0 && !(cfg.cache_prof && cfg.cache_geo);
+    const bool final_non_coarsenable = (cfg.aniso == 0 && cfg.nr_exp <= 2) || (cfg.ntheta_exp >= 0 && cfg.ntheta_exp <= 2);
+    if (final_take_without_caches || final_non_coarsenable)
+        c.obs.require("documented_rejection_is_rejected", !ran, std::string(final_take_without_caches ? "take-without-caches" : "") + (final_non_coarsenable ? "non-coarsenable-grid" : ""));
     if (ran) {
         // statistics are well defined
         bool its_ok = its >= 0 && its <= std::max(cfg.maxIterations, 0);
         c.obs.require("iterations_in_range", its_ok, ext);
-        if (its > 0)
+        // a configuration without any smoothing (or otherwise outside C01's set) may legitimately diverge to inf/NaN: the
+        // statistics of such a solve are still functions of it, but not finite; finiteness is required while the solution is
+        // finite and bounded by 1e50 (a diverged iterate of 1e160 overflows in the squared norms)
+        if (its > 0 && finite_solution)
             c.obs.require("reduction_factor_finite", std::isfinite(rho) && rho >= 0, ext);
-        if (cfg.with_exact && has_err)
+        if (cfg.with_exact && has_err && finite_solution)
             c.obs.require("exact_errors_finite", std::isfinite(e2) && std::isfinite(einf) && e2 >= 0 && einf >= 0, ext);
         if (cfg.with_exact && its > 0)
             c.obs.require("exact_errors_present_after_iterations", has_err, ext);
